@@ -120,6 +120,8 @@ def detectors(o, evs):
     etext = " ".join((x.get("etext") or "") for x in evs[1:])
     if re.search(r"yield\s*\}(t`|m\$\{)", src) and "unexpected }" in etext:
         out.append("yield-before-template-continuation")
+    if re.search(r"for\s*\(\s*async\b", src) and "expected ; instead of )" in etext:
+        out.append("for-in/left-side-starting-with-async")
     roots = tree_of(o)
     for r in roots:
         for n in walk(r):
